@@ -47,6 +47,12 @@ func genFaults(r *gen.Rand, n int, entry bool) string {
 	return strings.TrimRight(string(b), "o")
 }
 
+// ownVal: a header value that names the op, always 9 bytes long (a value overwritten in place by the value of
+// another op's response shows as that other op's value, not as a truncated or padded one)
+func ownVal(idx int) string {
+	return "own-" + string([]byte{byte('a' + idx%26), byte('a' + (idx/26)%26)}) + "-" + string([]byte{byte('A' + idx%26), byte('0' + idx%10)})
+}
+
 func genOp(r *gen.Rand, c cfgIn, keys []string, idx int, w *gen.Writer, flt int) opIn {
 	o := opIn{expGen: -1}
 	o.method = gen.Pick(r, []string{"GET", "GET", "GET", "GET", "GET", "HEAD", "POST", "PUT"})
@@ -111,6 +117,14 @@ func genOp(r *gen.Rand, c cfgIn, keys []string, idx int, w *gen.Writer, flt int)
 		used[n] = true
 		o.hdrs = append(o.hdrs, [2]string{n, gen.Pick(r, hdrVals)})
 	}
+	if c.own {
+		// every response carries the same custom header names in the same order, each op its own values of equal
+		// length: a stored header that is not a copy is overwritten by the next response on the connection
+		o.hdrs = nil
+		for _, n := range []string{"X-A", "X-B", "Etag"}[:1+r.Intn(3)] {
+			o.hdrs = append(o.hdrs, [2]string{n, ownVal(idx)})
+		}
+	}
 	if r.Chance(1, 10) {
 		o.hdelay = 1 + r.Intn(2)
 	}
@@ -164,6 +178,11 @@ func genCase(r *gen.Rand, w *gen.Writer, tier string) (cfgIn, []opIn, map[int][]
 		c.expiration = -1
 	}
 	c.storeHeaders = r.Bool()
+	// a fifth of the histories: stored headers with per-request values in fixed header slots (see genOp)
+	if r.Chance(1, 5) {
+		c.storeHeaders, c.own = true, true
+		w.Count("cases-own-header-values")
+	}
 	c.ccOut = r.Chance(3, 10)
 	conc := r.Chance(3, 10)
 	c.kg = conc || r.Bool()
